@@ -242,9 +242,14 @@ func cmdConcReplay(args []string) {
 		}
 	}
 
-	id := 0
+	id, nround := 0, 0
 	runConcurrent := func(prog *progT, g int, gate *schedGate) {
 		var wg sync.WaitGroup
+		// every other round all goroutines go through ONE engine value (a package-level engine is common usage)
+		var shared *sharedEngine
+		if nround++; nround%2 == 0 {
+			shared = newSharedEngine(5)
+		}
 		bufs := make([]bytes.Buffer, g+1)
 		cases := make([]*Case, g+1)
 		worlds := make([]*World, g+1)
@@ -256,6 +261,11 @@ func cmdConcReplay(args []string) {
 			c := &Case{ID: id, GRL: prog.grl, RulesJS: prog.rules, Variant: "concurrent", Profile: "conc", Listener: 1,
 				Counted: json.RawMessage(`{"k":"none"}`),
 				Calls:   []CallCfg{{Mode: "exec", World: worlds[p], Max: uint64(3 + p), CancelAt: -1}}}
+			if shared != nil {
+				c.shared = shared
+				c.Calls[0].Max = 5
+				c.Variant = "concurrent-shared-engine"
+			}
 			id++
 			cases[p] = c
 			wg.Add(1)
